@@ -717,11 +717,13 @@ impl TrainDisp {
                 .for_each(|x| x.offset += offset_change);
         }
 
-        // Update front and back dispatch nodes
+        // Update front and back dispatch nodes: idx_min is whichever of the two comes first on the
+        // dispatch path and idx_max the later one. Both are matched against the new path in path order
+        // (one forward search), and whenever the later one lies past the split point it must be moved.
         let (idx_min, idx_max) = if self.disp_node_idx_back < self.disp_node_idx_front {
-            (&mut self.disp_node_idx_front, &mut self.disp_node_idx_back)
-        } else {
             (&mut self.disp_node_idx_back, &mut self.disp_node_idx_front)
+        } else {
+            (&mut self.disp_node_idx_front, &mut self.disp_node_idx_back)
         };
         assert!(idx_max.idx() < idx_join_base);
 
